@@ -3,6 +3,7 @@ package c13
 
 import (
 	"context"
+	"encoding/json"
 	"fmt"
 	"os"
 	"strings"
@@ -172,11 +173,16 @@ func TestHelperInputs(t *testing.T) { rapid.Check(t, propHelperInputs) }
 func propSwap(t *rapid.T) {
 	w := world.New(t, world.Config{CaseSeed: rapid.Uint64().Draw(t, "case_seed"), SeedIdx: rapid.IntRange(0, 5).Draw(t, "mint_seed"), FeeMode: lnmodel.FeeZero})
 	defer w.Close()
-	helperCase := rapid.Bool().Draw(t, "helper_case")
+	caseKind := rapid.SampledFrom([]string{"helper", "helper", "random", "random", "tamper_output", "tamper_output"}).Draw(t, "case_kind")
+	// tamper_output: everything as the helpers produce it for SIG_ALL, several outputs, one output's witness damaged
+	helperCase := caseKind != "random"
 	var c lockgen.Config
 	if helperCase {
 		c = helperConfig(t)
 		c.Sigflag = rapid.SampledFrom([]string{"absent", "SIG_ALL", "SIG_ALL"}).Draw(t, "helper_sigflag")
+		if caseKind == "tamper_output" {
+			c.Sigflag = "SIG_ALL"
+		}
 		if c.Sigflag == "SIG_ALL" {
 			// output signatures need a signing key: the helper domain has n_sigs = 1 with the signer listed
 			c.NSigs = 1
@@ -241,13 +247,23 @@ func propSwap(t *rapid.T) {
 		inputs = append(inputs, p)
 		secrets = append(secrets, p.Secret)
 	}
-	newOuts := w.MakeOutputs(world.Split(total), w.ActiveID)
+	amounts := world.Split(total)
+	if caseKind == "tamper_output" || rapid.Bool().Draw(t, "many_outputs") {
+		ones := rapid.IntRange(1, 3).Draw(t, "extra_outputs")
+		amounts = world.Split(total - uint64(ones))
+		for i := 0; i < ones; i++ {
+			amounts = append(amounts, 1)
+		}
+	}
+	newOuts := w.MakeOutputs(amounts, w.ActiveID)
 	msgs := world.Msgs(newOuts)
 	outMode := "unsigned"
-	if helperCase && c.Sigflag == "SIG_ALL" {
+	if caseKind == "tamper_output" {
+		outMode = rapid.SampledFrom([]string{"one_without_preimage_key", "one_without_preimage_key", "one_empty_preimage", "one_without_signatures", "one_unsigned", "helper"}).Draw(t, "tamper")
+	} else if helperCase && c.Sigflag == "SIG_ALL" {
 		outMode = "helper"
 	} else if c.Sigflag == "SIG_ALL" {
-		outMode = rapid.SampledFrom([]string{"unsigned", "helper", "helper_wrong_preimage", "helper_foreign_key", "one_unsigned"}).Draw(t, "output_witness")
+		outMode = rapid.SampledFrom([]string{"unsigned", "helper", "helper_wrong_preimage", "helper_foreign_key", "one_unsigned", "one_without_preimage_key", "one_without_preimage_key", "one_empty_preimage", "one_without_signatures"}).Draw(t, "output_witness")
 	}
 	switch outMode {
 	case "helper":
@@ -262,7 +278,25 @@ func propSwap(t *rapid.T) {
 		msgs, _ = nut14.AddWitnessHTLCToOutputs(msgs, c.Preimage, lockgen.K(lockgen.Foreign0).Priv)
 	case "one_unsigned":
 		msgs, _ = nut14.AddWitnessHTLCToOutputs(msgs, c.Preimage, lockgen.K(signer).Priv)
-		msgs[len(msgs)-1].Witness = ""
+		msgs[rapid.IntRange(0, len(msgs)-1).Draw(t, "unsigned_output")].Witness = ""
+	case "one_without_preimage_key", "one_empty_preimage", "one_without_signatures":
+		// every output carries the helper's witness except one (at a drawn position) that lacks a part of it
+		msgs, _ = nut14.AddWitnessHTLCToOutputs(msgs, c.Preimage, lockgen.K(signer).Priv)
+		at := rapid.IntRange(0, len(msgs)-1).Draw(t, "tampered_output")
+		var wm map[string]any
+		if json.Unmarshal([]byte(msgs[at].Witness), &wm) == nil {
+			switch outMode {
+			case "one_without_preimage_key":
+				delete(wm, "preimage")
+			case "one_empty_preimage":
+				wm["preimage"] = ""
+			case "one_without_signatures":
+				delete(wm, "signatures")
+			}
+			b, _ := json.Marshal(wm)
+			msgs[at].Witness = string(b)
+		}
+		rec.Class(fmt.Sprintf("e2e_tampered_output_first=%v_of_many=%v", at == 0, len(msgs) > 1))
 	}
 	var bs, ows []string
 	for _, m := range msgs {
@@ -273,9 +307,9 @@ func propSwap(t *rapid.T) {
 	_, err = w.Mint.Swap(inputs, msgs)
 	accepted := err == nil
 	anySA, necSA, whySA := ref.EvalSwapSigAll(secrets, bs, ows, lockgen.Verify)
-	cls := fmt.Sprintf("e2e|helper=%v|%s|locked=%d|plain=%d|outputs=%s", helperCase, configClass(c), nLocked, nPlain, outMode)
+	cls := fmt.Sprintf("e2e|%s|%s|locked=%d|plain=%d|outputs=%s/%d", caseKind, configClass(c), nLocked, nPlain, outMode, len(msgs))
 	rec.NonTrivial(cls + fmt.Sprint(perm))
-	rec.Class(fmt.Sprintf("e2e_helper=%v_sig_all=%v_outputs=%s", helperCase, anySA, outMode))
+	rec.Class(fmt.Sprintf("e2e_%s_sig_all=%v_outputs=%s", caseKind, anySA, outMode))
 	if accepted && !allNec && !anySilent {
 		violate(t, "e2e|swap_accepted_without_input_condition", "secrets %v witnesses %v", secrets, wit(inputs))
 	}
@@ -284,7 +318,7 @@ func propSwap(t *rapid.T) {
 		// does not accept as a signature over the bytes of B_
 		violate(t, "e2e|swap_accepted_sig_all_rule_broken|"+whySA, "swap accepted although SIG_ALL outputs rule is broken (%s, outputs %s); secrets %v", whySA, outMode, secrets)
 	}
-	if helperCase && !accepted {
+	if helperCase && !accepted && (outMode == "helper" || outMode == "unsigned") {
 		violate(t, fmt.Sprintf("e2e|helper_witness_rejected_by_mint|sig_all=%v|outputs=%s", anySA, outMode), "the mint rejects (%v) the witnesses produced by the library's HTLC helpers; secrets %v input witnesses %v output witnesses %v", err, secrets, wit(inputs), ows)
 	}
 	if !helperCase && !accepted && allSuff && !anySA {
